@@ -204,7 +204,10 @@ reg("C01", ["c01_typed.c"],
 
 RT_FAMILY = ("tables from the small-scope family (seeded by index): 1-3 areas with bases from {0,1,5,0x100,0x7ffe,0xfff8,"
              "0x7ffffff0,0xffffff00}, sizes 1-8 words (one table in six has one area of 18-48 words densely packed with "
-             "up to 46 registers, one in four an area left without registers on purpose), gaps {0,0,1,3}; flags RW / "
+             "up to 46 registers, one in four an area left without registers on purpose, mostly joined to its "
+             "predecessor; the first twelve units of C02, C03 and C05 use curated layouts instead: register-less areas "
+             "behind, in front of and between populated ones, long dense areas, everything adjacent; every second "
+             "table is written with the REG_* / MAKE_*_AREA macros of register-table.h), gaps {0,0,1,3}; flags RW / "
              "read-only / write-only / skip-defaults; memory- or callback-backed "
              "(some callback areas without write callback); 16/32/64-bit unsigned, signed and float registers at every "
              "alignment with constraint none/min/max/range/callback/always-fail and seeded bounds; both byte orders")
